@@ -223,6 +223,8 @@ def _eq_table():
                 reps.append(o); _EQ.append([ser(o), len(reps) - 1])
         for i, (sv, c) in enumerate(_EQ):
             COQ_HEADER.append(f"Definition v{i} : bytes := {coq_bytes(sv.encode('latin-1'))}.")
+        COQ_HEADER.append("Definition names : list bytes := %s." % coq_list(
+            [coq_bytes(k.encode()) for k in KEYS], "bytes"))
         COQ_HEADER.append("Definition eqt : list (bytes * N) := %s." % coq_list(
             [f"(v{i}, {coq_N(c)})" for i, (sv, c) in enumerate(_EQ)], "bytes * N"))
     return _EQ
@@ -381,7 +383,7 @@ def to_coq(case, obs):
     snaps = ["{| Durq.sn_res := %s; Durq.sn_mem := %s; Durq.sn_store := %s |}" % (
         _coq_res(r), coq_list([_b(x) for x in m], "bytes"), coq_list([_b(x) for x in s], "bytes"))
         for r, m, s in obs["obs"]]
-    return ("{| Durq.c_set := %s; Durq.c_eq := %s; Durq.c_ops := %s; Durq.c_obs := %s |}" % (
+    return ("{| Durq.c_names := names; Durq.c_set := %s; Durq.c_eq := %s; Durq.c_ops := %s; Durq.c_obs := %s |}" % (
         coq_bool(case["kind"] == "dusq"),
         "eqt",
         coq_list([_coq_ev(ser, q, o) for q, o in ev], "N * Durq.qop"),
